@@ -3,6 +3,7 @@ package blockchain
 import (
 	"errors"
 	"fmt"
+	"slices"
 	"strconv"
 
 	"github.com/virel-project/virel-blockchain/v3/adb"
@@ -186,20 +187,25 @@ func (bc *Blockchain) ApplyStake(txn adb.Txn, stakeData *transaction.Stake, sign
 	}
 	if !staked {
 		unlock := stats.TopHeight + config.STAKE_UNLOCK_TIME
+		pos := len(delegate.Funds)
 		if reverse {
 			// we are undoing an unstake that emptied (and therefore dropped) the fund: bring the fund back with
-			// the unlock height it had, which ApplyUnstake saved under the transaction id
+			// the unlock height and at the place it had in the record, which ApplyUnstake saved under the
+			// transaction id
 			old, err := bc.GetDelegateHistory(txn, util.Hash(txid))
 			if err == nil && old.Id == delegate.Id {
-				for _, fund := range old.Funds {
+				for i, fund := range old.Funds {
 					if fund.Owner == signerAddr {
 						unlock = fund.Unlock
+						if i < pos {
+							pos = i
+						}
 						break
 					}
 				}
 			}
 		}
-		delegate.Funds = append(delegate.Funds, &chaintype.DelegatedFund{
+		delegate.Funds = slices.Insert(delegate.Funds, pos, &chaintype.DelegatedFund{
 			Owner:  signerAddr,
 			Amount: stakeData.Amount,
 			Unlock: unlock,
